@@ -155,8 +155,14 @@ func runC25(c *Ctx) {
 							step = k
 						}
 					}
-				} else if k, okk := newEnv().eval(e); okk {
-					k0 = k // initial index (constant expression, e.g. 4+7 or len(c.iv)-1)
+				} else {
+					// initial index: a constant expression such as 4+7, or
+					// len(c.iv)-1 with the 12-byte GCM IV (cipherModes table, C27)
+					ev := newEnv()
+					ev.bindLenPath(f, "c.iv", 12)
+					if k, okk := ev.eval(e); okk {
+						k0 = k
+					}
 				}
 			}
 			// which indices are visited: evaluate the loop condition for i = k0, k0+step, …
